@@ -227,6 +227,27 @@ def execute(mat, ctx):
             ctx.hist("natural_outcome", "bad-citation:%s" % (sig[1] if sig[0] == "raised" else "product"))
             ctx.nontrivial([mat["id"], mat["enzyme"], "bad-citation", j, badcit])
             retry("bad citation %r in element %d" % (badcit, j))
+    # a feature pasted from another file: it cites "[1]" on a record that has no reference list at all (no "references"
+    # annotation, which is equivalent to an empty one).  Whatever the call does, doing it again on the same objects must do the same.
+    for j in (0, nm):
+        mspecs = [copy.deepcopy(x) for x in specs]
+        mspecs[j].pop("refs", None)
+        mspecs[j]["features"] = [dict(f, quals={k: v for k, v in f["quals"].items() if k != "citation"}) for f in mspecs[j]["features"]]
+        mspecs[j]["features"].append({"type": "misc_feature", "parts": [[0, 1, 1]], "quals": {"uid": ["pasted.%d" % j], "citation": ["[1]"]}})
+        same = [gen.make_record(x) for x in mspecs]
+        sigs = []
+        for n in (1, 2, 3):
+            v, ms = ents(same)
+            sigs.append(_call(v, ms, {"scenario": "dangling-citation-without-reference-list:call-%d" % n}))
+        v, ms = ents([gen.make_record(x) for x in mspecs])
+        fresh_sig = _call(v, ms, {"scenario": "dangling-citation-without-reference-list:fresh-copies"})
+        ctx.count("c07_dangling_citation_histories")
+        ctx.count("evaluations")
+        for n, sg in enumerate(sigs, start=1):
+            if sg != fresh_sig:
+                ctx.violation("repeated-call-differs:dangling-citation:call-%d" % n, "a record citing [1] without any reference list: call %d on the same objects gives %s, a first call on fresh copies %s" % (
+                    n, str(sg)[:200], str(fresh_sig)[:200]), scenario="dangling-citation-without-reference-list")
+                break
     # invalid vector: a module used as the vector of itself has equal overhangs only by accident; build one explicitly
     ov = mat["overhangs"]
     rng = gen.rng_for("c07-invalid-vector", mat["id"])
